@@ -14,7 +14,7 @@ Section C07.
 
   Theorem model_trace_function :
     forall fuel r v (tr ext1 ext2 : list (event (VS := VS) (Vr := Vr))),
-      is_mismatch (fst (fst (resolve O veqb fuel r v tr))) = false ->
+      is_mismatch (fst (fst (fst (resolve O veqb fuel r v tr)))) = false ->
       resolve O veqb fuel r v (tr ++ ext1) = resolve O veqb fuel r v (tr ++ ext2).
   Proof.
     intros fuel r v tr e1 e2 H. now rewrite !(resolve_prefix O veqb fuel r v tr) by assumption.
